@@ -285,20 +285,22 @@ theorem numsOf_nums : ∀ qs : List Rat, numsOf (qs.map PValue.num) = some qs
     simp only [numsOf] at this ⊢
     simp [List.mapM_cons, numOf, this]
 
-/-- **sum / average / stddev** over number values are the defining formulas on the exact rational values: the sum, the sum
-divided by the count, and the square root of the mean squared deviation from the mean — the latter two through the host's
-float conversion `F` (not modelled); when `F` is exact on the value at hand (the exactly-representable case) the cell *is*
-the rational mean, resp. the rational whose square is the variance.  `_partial` on float rounding: `F.round`/`F.sqrt` are
+/-- **sum / average / stddev** over number values are the defining formulas on the exact rational values: the sum
+(`math.fsum`: the exact sum rounded once), the sum divided by the count, and the square root of the mean squared deviation
+from the mean — all through the host's float conversion `F` (not modelled); when `F` is exact on the value at hand (the
+exactly-representable case) the cell *is* the rational sum, the rational mean, resp. the rational whose square is the variance.  `_partial` on float rounding: `F.round`/`F.sqrt` are
 assumptions about `statistics.mean`/`pstdev`, sampled by the correspondence. -/
 theorem agg_sum_average_stddev (F : HostFloat) (qs : List Rat) (hne : qs ≠ []) :
-    aggCell F .sum (qs.map .num) = .ok (.num (ratSum qs)) ∧
+    aggCell F .sum (qs.map .num) = .ok (.num (F.round (ratSum qs))) ∧
+    (F.round (ratSum qs) = ratSum qs → aggCell F .sum (qs.map .num) = .ok (.num (ratSum qs))) ∧
     aggCell F .average (qs.map .num) = .ok (.num (F.round (ratSum qs / qs.length))) ∧
     aggCell F .stddev (qs.map .num) = .ok (.num (F.sqrt (ratPVariance qs))) ∧
     (F.round (ratMean qs) = ratMean qs → aggCell F .average (qs.map .num) = .ok (.num (ratMean qs))) ∧
     (∀ s, 0 ≤ s → s * s = ratPVariance qs → F.sqrt (s * s) = s → aggCell F .stddev (qs.map .num) = .ok (.num s)) := by
   have he : (qs.map PValue.num).isEmpty = false := by cases qs <;> simp at hne ⊢
-  refine ⟨?_, ?_, ?_, fun h => ?_, fun s _ hs hF => ?_⟩ <;>
+  refine ⟨?_, fun h => ?_, ?_, ?_, fun h => ?_, fun s _ hs hF => ?_⟩ <;>
     simp only [aggCell, he, Bool.false_eq_true, if_false, aggApply, numsOf_nums, ratMean]
+  · rw [h]
   · rw [← ratMean, h]
   · rw [← hs, hF]
 
